@@ -311,3 +311,45 @@ def run_putempty(name, with_days=True, emutant='none', invariants=('FreshKept', 
         cfg += 'INVARIANT %s\n' % i
     cfg += 'CHECK_DEADLOCK FALSE\n'
     return tlc.run_tlc('MC_' + name, cfg_text=cfg, workers=workers, timeout=timeout, extra_files={'MC_%s.tla' % name: mod})
+
+
+def validate_put_state_traces(traces, procs, cands=('t1',), preinfo=(), prepay=(), dirs_exist=(), copy_cands=(), toolong=(),
+                              file_procs=(), link_procs=(), extra_slots=(), workers=4, timeout=900):
+    """traces: list of sequences of distinct observed states {parts, info, pay, src} of ONE scenario
+    -> (TlcResult, accepted 1-based ids)"""
+    import json, os, re, shutil, tempfile
+    slots = ['n'] + ['n%d' % i for i in range(1, 6)]
+    mod = '''---- MODULE MC_PutStateTrace ----
+EXTENDS PutStateTrace
+MC_Procs == %s
+MC_Cands == <<%s>>
+MC_Slots == <<%s>>
+MC_RandSlots == %s
+MC_PreInfo == %s
+MC_PrePay == %s
+MC_DirsExist == %s
+MC_CopyCands == %s
+MC_TooLong == %s
+MC_FileProcs == %s
+MC_LinkProcs == %s
+MC_Empty == {}
+====
+''' % (tla_set(map(tla_str, procs)), ', '.join(map(tla_str, cands)), ', '.join(map(tla_str, slots)), tla_set(map(tla_str, extra_slots)),
+       tla_pairs(preinfo), tla_pairs(prepay), tla_set(map(tla_str, dirs_exist)), tla_set(map(tla_str, copy_cands)),
+       tla_set(map(tla_str, toolong)), tla_set(map(tla_str, file_procs)), tla_set(map(tla_str, link_procs)))
+    cfg = ('INIT InitT\nNEXT NextT\nCONSTANTS Procs <- MC_Procs Cands <- MC_Cands Slots <- MC_Slots RandSlots <- MC_RandSlots\n'
+           'CONSTANTS PreInfo <- MC_PreInfo PrePay <- MC_PrePay DirsExist <- MC_DirsExist CopyCands <- MC_CopyCands Sticky <- MC_Empty\n'
+           'CONSTANTS TooLong <- MC_TooLong FileProcs <- MC_FileProcs LinkProcs <- MC_LinkProcs MaxFaults = 0 Mutant = "none"\n'
+           'INVARIANT ReportAccept\nINVARIANT NoOverwrite\nINVARIANT UniqueOwnership\nINVARIANT InfoBeforePayload\n'
+           'INVARIANT NothingLost\nCHECK_DEADLOCK FALSE\n')
+    d = tempfile.mkdtemp(prefix='vst-', dir='/dev/shm' if os.path.isdir('/dev/shm') else None)
+    try:
+        p = os.path.join(d, 'traces.json')
+        with open(p, 'w') as f:
+            json.dump(traces, f)
+        res = tlc.run_tlc('MC_PutStateTrace', cfg_text=cfg, workers=workers, timeout=timeout, env={'TRACE_FILE': p},
+                          extra_files={'MC_PutStateTrace.tla': mod})
+        acc = set(int(m.group(1)) for m in re.finditer(r'<<"##ACCEPT", (\d+)>>', res.raw))
+        return res, acc
+    finally:
+        shutil.rmtree(d, ignore_errors=True)
